@@ -218,6 +218,11 @@ def gen(rng, tier):
                     ops.append("G:" + gen_val(rng, True))
                 else:
                     ops.append("GR:%d:%s" % (rng.randrange(1, 3), gen_val(rng, True)))
+            if mx != "-" and f != "float" and rng.random() < 0.5:
+                # an application-declared step that does not divide the range, then writes at / beyond the maximum
+                ops.insert(0, "ST:i:%d" % rng.choice([2, 3, 7, 8, 100]))
+                top = int(mx[2:])
+                ops += ["R:1:i:%d" % top, "L:i:%d" % (top - 1), "R:2:i:%d" % (top + 5)]
             cases.append({"id": "ch%d" % len(cases), "kind": f,
                           "line": "ch %s %s %s %s %s %s" % (f, perms, mn, mx, init, " ".join(ops))})
     return cases
@@ -254,6 +259,11 @@ def oracle(c, obs):
     head = obs.split(" cbs=")[0].split(" ")
     want = KIND.get(f, "i")
     for i, v in enumerate(head):
+        if "!" in v:
+            # the driver compares what a getter call hands out (with the application's get callback installed) with the stored value
+            if "!getterpanic" in v:
+                return "the typed getter panics while the application's get callback is installed (operation #%d %s)" % (i, t[6 + i][:60])
+            return "a getter call handed out %s, the stored (converted, clamped) value is %s (operation #%d %s)" % (v.split("!ret=")[1][:40], v.split("!")[0][:40], i, t[6 + i][:60])
         if v == "panic":
             return "update #%d (%s) panics" % (i, t[6 + i][:60])
         if v == "nil":
